@@ -151,7 +151,7 @@ def aligned(r):
 def c_snap(sn):
     cs = clist(sn["cs"], lambda p: f"({clist(p[0], cN)}, {cZ(p[1])})")
     h2c = clist(sn["h2c"], lambda p: f"({cN(p[0])}, {copt(p[1], cnat)})")
-    return f"{{| sn_cs := {cs}; sn_h2c := {h2c}; sn_idle := {clist(sn['idle'], cN)} |}}"
+    return f"{{| sn_cs := {cs}; sn_h2c := {h2c}; sn_idle := {clist(sn['idle'], cN)}; sn_count := {cN(sn['computable'])} |}}"
 
 
 def c_orc(it, rd):
